@@ -555,8 +555,8 @@ pub fn run_case(c: &QCase) -> CaseOut {
                         break;
                     }
                     Err(crate::dbx::Err::Panic(p)) => {
-                        out.labels.push("abandoned.panic".into());
-                        let _ = p;
+                        // the reference has an answer: a worker that dies is not one
+                        out.failure = Some(fail("query_panicked", format!("`{sql}`: model has an answer ({} rows), engine worker panicked: {p}", want.rows.len())));
                         break;
                     }
                     Err(e) => {
